@@ -366,4 +366,18 @@ def _iv_rgamma_big(inp):
     return isinstance(pm[0], int) and pm[0] >= 7
 
 
+@predicate("c24_expint_asymptotic_loop")
+def _c24_expint_asymptotic_loop(inp):
+    """the call is stuck in the first loop of libmp.libhyper.mpf_expint (the asymptotic series `while m and t:`), reached through
+    the integer-order entry points only"""
+    return inp.get("loop_key") == "libmp/libhyper.py::mpf_expint#0" and inp.get("fn") in ("expint", "gammainc", "e1", "ei")
+
+
+@predicate("mp_trap_complex_reaches_rs_coef")
+def _mp_trap_rs(inp):
+    """C38: the GLOBAL mp has trap_complex on, the observed outcome is ComplexResult where the reference is a value"""
+    obs, ref = inp.get("observed") or [], inp.get("reference") or []
+    return ("st:0:1" in str(inp.get("program", "")).split() and obs[:2] == ["exc", "ComplexResult"] and ref[:1] == ["v"])
+
+
 import special_findings  # noqa: E402  (C18/C19/C22 predicates; must stay at the end of this file)
